@@ -54,18 +54,21 @@ def handle (tb : Tables) (c impl : T) : String :=
       else
         let cfg := cfgCur tb
         let cur := runModel tb cs cfg
-        let repaired := runModel tb cs { cfg with argCountCheckOnly := false }
+        -- the oracle: the walk with every deviation that bears on C10 repaired (undeclared arguments always looked
+        -- for, selections typed by the position — interface or union — not by the value, `__typename` takes no argument)
+        let repaired := runModel tb cs { cfg with argCountCheckOnly := false, unionAtMember := false, condByIdentity := false, metaArgsUnchecked := false }
         let specOk := match callsErrs impl, callsErrs repaired with
           | some a, some b => a == b
           | _, _ => false
         if impl == cur then
           if specOk then "ok"
-          else if cfg.argCountCheckOnly && !(repaired == cur) then "dev D23"
+          else if cfg.argCountCheckOnly && !(runModel tb cs { cfg with argCountCheckOnly := false } == cur) then "dev D23"
+          else if cfg.unionAtMember && !(runModel tb cs { cfg with unionAtMember := false } == cur) then "dev D103"
           else "unattributed " ++ cur.render
         else if impl == repaired && cfg.argCountCheckOnly then "repaired D23"
         else "mismatch " ++ (if specOk then "spec-ok " else "spec-bad ") ++ cur.render
   | _ => "bad-op"
 
-def flags (tb : Tables) : List (String × Bool) := [("D23", (cfgCur tb).argCountCheckOnly), ("D69", d69), ("D93", tb.argsSortedOnce)]
+def flags (tb : Tables) : List (String × Bool) := [("D23", (cfgCur tb).argCountCheckOnly), ("D69", d69), ("D93", tb.argsSortedOnce), ("D103", tb.unionAtMember)]
 
 end Ggql.Driver.C10
